@@ -472,6 +472,20 @@ func (x *Exec) cxCallTerm(env *cxEnv, y *cxCall) Term {
 	case "isa":
 		v := x.cxEval(env, y.Args[0])
 		id, _ := y.Args[1].(*cxIdent)
+		if sel, ok := y.Args[1].(*cxSel); ok && v.Sort == "Iface" {
+			// isa(v, types.Basic): dynamic type *go/types.Basic (a qualified name selects the package)
+			if q, ok := sel.X.(*cxIdent); ok {
+				for _, imp := range x.unit.Pkg.Imports {
+					if imp.Name == q.Name && imp.Types != nil {
+						if o, ok := imp.Types.Scope().Lookup(sel.Sel).(*types.TypeName); ok {
+							return tBool(sEq("(itag "+v.S+")", fmt.Sprint(x.d.tag(types.NewPointer(o.Type())))))
+						}
+					}
+				}
+			}
+			x.undecide("contract: isa: unknown qualified type %s", sel.Sel)
+			return tBool("true")
+		}
 		if id == nil || v.Sort != "Iface" {
 			x.undecide("contract: isa needs an interface value and a type name")
 			return tBool("true")
